@@ -282,7 +282,7 @@ func checkTemplate(c *Ctx, r *Report, format string, ti tmplInfo, spec map[strin
 }
 
 func checkC02(c *Ctx, r *Report) {
-	r.Rules = []string{"F3 template wiring (deb, ipk, apk)", "F4 rpm metadata wiring", "F5 archlinux key/value wiring", "F5b deb triggers / changelog extras", "D3 GOARCH tables vs documentation, override precedence", "F6 version slot depends on every configured component", "ipk reserved field names", "F5b-text rpm changelog text is the rendered notes (TrimSpace only)", "F3-funcs template helper functions write through none of their list arguments", "F6-parsed no branch on the value of a parsed epoch/release", "F3-text the description meets only white-space trimming and line-separator operations", "F4-verbatim rpm relation items reach the relation parser as configured", "arch-W3-idempotent architecture tables are chain-free (imported from C11)", "F5b-each each deb trigger list alone still yields a triggers file (by evaluation)", "wired-F15-self relation lists are expanded from themselves (imported from C16)", "F3 (extended) no field outside a line's own fields decides what the line states"}
+	r.Rules = []string{"F3 template wiring (deb, ipk, apk)", "F4 rpm metadata wiring", "F5 archlinux key/value wiring", "F5b deb triggers / changelog extras", "D3 GOARCH tables vs documentation, override precedence", "F6 version slot depends on every configured component", "ipk reserved field names", "F5b-text rpm changelog text is the rendered notes (TrimSpace only)", "F3-funcs template helper functions write through none of their list arguments", "F6-parsed no branch on the value of a parsed epoch/release", "F3-text the description meets only white-space trimming and line-separator operations", "F4-verbatim rpm relation items reach the relation parser as configured", "arch-W3-idempotent architecture tables are chain-free (imported from C11)", "F5b-each each deb trigger list alone still yields a triggers file (by evaluation)", "wired-F15-self relation lists are expanded from themselves (imported from C16)", "F3 (extended) no field outside a line's own fields decides what the line states", "F5-verbatim single-field .PKGINFO keys state the field unrewritten", "F3-scalar-plain single-line scalar settings are printed without a template function", "F3-fields-range custom fields are ranged over without a function", "F4-list-asis rpm metadata lists and strings are the configured values (no library call between)", "F3-fields-asis packagers add to or replace the custom field maps nowhere (reserved names are removed only)", "kept-D8-packager-store packagers only default-fill version components (rule of C14)"}
 	r.Explanation = "Wiring of control metadata decided from source. (F3) the deb, ipk and apk control templates — the string constants reaching Template.Parse — are parsed with text/template/parse (never executed) and flattened to label -> fields printed and fields guarding; each label must be fed from exactly the configuration field(s) the statement pairs it with (all relation kinds, identity fields, format extras), optional labels guarded by their own field. (F4) every field of the rpmpack.RPMMetaData literal and (F5) every key of the archlinux key/value writer must derive (field provenance over go/ssa) from exactly its configuration field(s). (F5b) deb trigger directives pair with the like-named trigger lists, the triggers member is written only when non-empty, changelog entries only behind a non-empty changelog setting. (D3) the five GOARCH tables are extracted from the package initialisers and every row of www/docs/goarch-to-pkg.md must hold in code; with a format-specific architecture configured the stored architecture is that value verbatim (abstract evaluation). (F6) with each version component in turn fixed non-empty, the string reaching the rpm Version field, the apk pkgver and the archlinux pkgver must depend on it on every live path. Rendering of concrete text (multi-line descriptions, escaping) is not decided."
 	r.Explanation += " (F5b-text) between the rendered changelog notes and rpm's changelog-text tag only strings.TrimSpace may sit. (F3-funcs) functions registered in the control templates' FuncMaps write through none of their list arguments. (F6-parsed) no branch depends on the value of an epoch/release parsed as an integer."
 	r.Explanation += " (F3-text) in every description helper of a control template, and wherever Info.Description is handed to a library function, only white-space trimming and split/join/replace at constant line separators occur - word-level rewriting changes the synopsis. (F4-verbatim) the string handed to rpmpack's relation parser is a load of a list element, through conversions and phis only. (arch-W3-idempotent) the architecture tables are applied by the file-name function and again by Package: a table with a chain a->b->c states c for a configured a."
@@ -318,6 +318,7 @@ func checkC02(c *Ctx, r *Report) {
 			found = true
 			nT++
 			checkTemplate(c, r, tc.format, ti, tc.spec)
+			checkScalarRowsPlain(c, r, tc.format, ti)
 			if tc.format == "ipk" {
 				checkIPKReserved(c, r, ti)
 			}
@@ -331,7 +332,7 @@ func checkC02(c *Ctx, r *Report) {
 	pa := newProv(c)
 	// ---- F4 rpm ----
 	if pk := c.PackagerByFormat("rpm"); pk != nil {
-		n := 0
+		n, nAsis := 0, 0
 		for _, fn := range sortedFuncs(c, c.Reach(pk.Package)) {
 			forEachInstr(fn, func(in ssa.Instruction) {
 				al, ok := in.(*ssa.Alloc)
@@ -378,11 +379,27 @@ func checkC02(c *Ctx, r *Report) {
 						got := infoAtoms(p)
 						r.Check(strings.Join(got, ",") == strings.Join(want, ","), "F4", construct, c.instrPos(al),
 							fmt.Sprintf("fed from {%s}, expected {%s}", strings.Join(got, ","), strings.Join(want, ",")))
+						// fields that state one setting state it as configured: no
+						// library call sits between the setting and the field
+						switch name {
+						case "Arch", "Compressor", "Description", "Group", "Licence", "Name", "OS", "Prefixes", "URL", "Vendor", "Packager",
+							"Conflicts", "Obsoletes", "Provides", "Recommends", "Requires", "Suggests":
+							var rew []string
+							for _, a := range p.list() {
+								if strings.HasPrefix(a, "call:") {
+									rew = append(rew, a)
+								}
+							}
+							nAsis++
+							r.Check(len(rew) == 0, "F4-list-asis", construct+" is the configured value", c.instrPos(al),
+								fmt.Sprintf("the value passes through %v: order, spelling or multiplicity of what was configured can change on the way into the header", rew))
+						}
 					}
 				}
 			})
 		}
 		r.Floor("F4", n, 23)
+		r.Floor("F4-list-asis", nAsis, 15)
 		checkRPMExtras(c, r, pk)
 	}
 
@@ -390,50 +407,17 @@ func checkC02(c *Ctx, r *Report) {
 	if pk := c.PackagerByFormat("archlinux"); pk != nil {
 		got := map[string]provSet{}
 		at := map[string]ssa.Instruction{}
-		for _, fn := range sortedFuncs(c, c.Reach(pk.Package)) {
-			forEachInstr(fn, func(in ssa.Instruction) {
-				switch x := in.(type) {
-				case *ssa.MapUpdate:
-					k, ok := x.Key.(*ssa.Const)
-					if !ok || k.Value == nil || x.Map.Type().String() != "map[string]string" {
-						return
-					}
-					if _, isSpec := specArchKV[constString(k)]; !isSpec {
-						return
-					}
-					key := constString(k)
-					if got[key] == nil {
-						got[key] = provSet{}
-					}
-					got[key].add(pa.Of(x.Value))
-					at[key] = in
-				case *ssa.Call:
-					sc := x.Call.StaticCallee()
-					if sc == nil || !c.isModuleFunc(sc) || len(x.Call.Args) != 3 {
-						return
-					}
-					k, ok := x.Call.Args[1].(*ssa.Const)
-					if !ok || k.Value == nil || k.Value.Kind().String() != "String" {
-						// table-driven: key and value come from the row a loop
-						// over a literal {key, values} table is visiting
-						for _, row := range tableKeyValueRows(x.Call.Args[1], x.Call.Args[2]) {
-							if got[row.key] == nil {
-								got[row.key] = provSet{}
-							}
-							got[row.key].add(pa.Of(row.val))
-							at[row.key] = in
-						}
-						return
-					}
-					key := constString(k)
-					if got[key] == nil {
-						got[key] = provSet{}
-					}
-					got[key].add(pa.Of(x.Call.Args[2]))
-					at[key] = in
-				}
-			})
+		for _, kv := range archKeyValues(c, pa, pk) {
+			if _, isSpec := specArchKV[kv.key]; !isSpec {
+				continue
+			}
+			if got[kv.key] == nil {
+				got[kv.key] = provSet{}
+			}
+			got[kv.key].add(pa.Of(kv.val))
+			at[kv.key] = kv.at
 		}
+		nVerb := 0
 		var keys []string
 		for k := range specArchKV {
 			keys = append(keys, k)
@@ -454,7 +438,21 @@ func checkC02(c *Ctx, r *Report) {
 			}
 			r.Check(strings.Join(g, ",") == strings.Join(want, ","), "F5", construct, c.instrPos(at[k]),
 				fmt.Sprintf("fed from {%s}, expected {%s}", strings.Join(g, ","), strings.Join(want, ",")))
+			// single-field keys state the field as configured
+			switch k {
+			case "url", "license", "arch", "pkgname", "packager", "pkgbase":
+				var rew []string
+				for _, a := range p.list() {
+					if strings.HasPrefix(a, "call:") {
+						rew = append(rew, a)
+					}
+				}
+				nVerb++
+				r.Check(len(rew) == 0, "F5-verbatim", construct+" is the configured text", c.instrPos(at[k]),
+					fmt.Sprintf("the value passes through %v: the key would state something other than what was configured", rew))
+			}
 		}
+		r.Floor("F5-verbatim", nVerb, 4)
 		r.Floor("F5", len(got), 13)
 	}
 
@@ -494,6 +492,22 @@ func checkC02(c *Ctx, r *Report) {
 	r.Floor("arch-W3-idempotent", nW, 4)
 	// a relation list reaches the packagers as the expansion of itself, not of
 	// a sibling list (rule of C16)
+	// no packager rewrites a version component in place (rule of C14): the
+	// file name function doing so makes Package compose the version twice
+	{
+		tmpK := newReport("tmp")
+		checkPackagerKeepsComponents(c, tmpK)
+		nK := 0
+		for _, o := range tmpK.Obls {
+			if o.Rule == "D8-packager-store" {
+				o.Rule = "kept-D8-packager-store"
+				r.Obls = append(r.Obls, o)
+				nK++
+			}
+		}
+		r.Floor("kept-D8-packager-store", nK, 5)
+	}
+	checkCustomFieldsAsConfigured(c, r, pa)
 	r.Floor("wired-F15-self", importRules(c, r, checkC16, "wired-", []string{"F15-self"}, nil), 12)
 }
 
@@ -1361,18 +1375,39 @@ func versionSlots(c *Ctx) []versionSlot {
 		}
 	}
 	if pk := c.PackagerByFormat("archlinux"); pk != nil {
-		for _, fn := range sortedFuncs(c, c.Reach(pk.Package)) {
-			forEachInstr(fn, func(in ssa.Instruction) {
-				mu, ok := in.(*ssa.MapUpdate)
-				if !ok {
-					return
+		for _, kv := range archKeyValues(c, newProv(c), pk) {
+			if kv.key == "pkgver" {
+				// release and epoch pass through fallible integer parses with a
+				// default (noted in DESIGN, not claimed): may-provenance only (F5)
+				out = append(out, versionSlot{"archlinux", ".PKGINFO pkgver", kv.fn, kv.val, []string{"Version", "Prerelease"}})
+			}
+		}
+	}
+	for _, format := range []string{"deb", "ipk"} {
+		pk := c.PackagerByFormat(format)
+		if pk == nil {
+			continue
+		}
+		// a Version line composed by a Go helper the template hands the whole
+		// Info: every return of the helper is a slot
+		for _, ti := range templateConstants(c, c.Reach(pk.Package)) {
+			for _, row := range ti.Rows {
+				if row.Label != "Version" {
+					continue
 				}
-				if k, ok := mu.Key.(*ssa.Const); ok && k.Value != nil && constString(k) == "pkgver" {
-					// release and epoch pass through fallible integer parses with a
-					// default (noted in DESIGN, not claimed): may-provenance only (F5)
-					out = append(out, versionSlot{"archlinux", ".PKGINFO pkgver", fn, mu.Value, []string{"Version", "Prerelease"}})
+				if _, hf, whole := infoFieldsOfRowFuncs(c, ti, row); whole {
+					for _, f := range hf {
+						if f == nil || f.Blocks == nil {
+							continue
+						}
+						for _, b := range f.Blocks {
+							if ret, ok := b.Instrs[len(b.Instrs)-1].(*ssa.Return); ok && len(ret.Results) == 1 {
+								out = append(out, versionSlot{format, "control Version (helper)", f, ret.Results[0], []string{"Version", "Prerelease", "VersionMetadata", "Release", "Epoch"}})
+							}
+						}
+					}
 				}
-			})
+			}
 		}
 	}
 	if pk := c.PackagerByFormat("apk"); pk != nil {
@@ -1436,7 +1471,7 @@ type kvRow struct {
 // tableKeyValueRows: key and val are read from the element a loop visits in a
 // literal table (val possibly as an element of a list-valued field); returns
 // one (constant key, stored value) pair per row, nil when the shape differs.
-func tableKeyValueRows(key, val ssa.Value) []kvRow {
+func tableKeyValueRows(pa *provAnalysis, key, val ssa.Value) []kvRow {
 	ia, kfield, ok := loopElemField(key)
 	if !ok {
 		return nil
@@ -1460,7 +1495,19 @@ func tableKeyValueRows(key, val ssa.Value) []kvRow {
 		return nil
 	}
 	var arr *ssa.Alloc
-	switch x := ia.X.(type) {
+	table := ia.X
+	if prm, isPrm := table.(*ssa.Parameter); isPrm && pa != nil {
+		// the table is handed to the function that walks it: the literal at
+		// its single call site
+		fn := prm.Parent()
+		sites := pa.callSites(fn)
+		for i, q := range fn.Params {
+			if q == prm && len(sites) == 1 && i < len(sites[0].Common().Args) {
+				table = sites[0].Common().Args[i]
+			}
+		}
+	}
+	switch x := table.(type) {
 	case *ssa.Slice:
 		arr, _ = x.X.(*ssa.Alloc)
 	case *ssa.Alloc:
@@ -1470,7 +1517,11 @@ func tableKeyValueRows(key, val ssa.Value) []kvRow {
 		return nil
 	}
 	var out []kvRow
-	for _, row := range tableRows(arr, ia) {
+	loopElem := ia
+	if table != ia.X {
+		loopElem = nil // the literal lives at the call site, the loop in the callee
+	}
+	for _, row := range tableRows(arr, loopElem) {
 		k, ok := row[kfield].(*ssa.Const)
 		if !ok || row[vfield] == nil || constOrEmpty(k) == "" {
 			return nil
@@ -2018,4 +2069,184 @@ func mustProvRow(c *Ctx, fr *Frame, v ssa.Value, bind map[*ssa.Parameter]provSet
 		return mustProvRow(c, fr, x.X, bind, depth+1, seen, rb)
 	}
 	return mustProv(c, fr, v, bind, depth, seen)
+}
+
+// checkCustomFieldsAsConfigured (F3-fields-asis): the custom control fields
+// (deb.fields, ipk.fields) are printed key by key as configured. A packager
+// removes reserved names from them; it never inserts into the map or replaces
+// it - a rebuilt map (canonical spellings, merged duplicates) states keys
+// nobody configured and drops values when two spellings meet.
+func checkCustomFieldsAsConfigured(c *Ctx, r *Report, pa *provAnalysis) {
+	n, deletes := 0, 0
+	isFields := func(p provSet) bool {
+		for _, a := range p.list() {
+			if strings.HasSuffix(a, ".IPK.Fields") || strings.HasSuffix(a, ".Deb.Fields") {
+				return true
+			}
+		}
+		return false
+	}
+	for _, pk := range c.Packagers {
+		if pk.Format != "deb" && pk.Format != "ipk" {
+			continue
+		}
+		for _, fn := range sortedFuncs(c, c.Reach(pk.Package, pk.FileName)) {
+			if c.funcPkgPath(fn) != pk.PkgPath {
+				continue
+			}
+			n++
+			k := 0
+			forEachInstr(fn, func(in ssa.Instruction) {
+				switch x := in.(type) {
+				case *ssa.Store:
+					p, root := addrPath(x.Addr)
+					if root != nil && (strings.HasSuffix(p, "IPK.Fields") || strings.HasSuffix(p, "Deb.Fields")) && rootTypeName(root.Type()) == "Info" {
+						// a rebuilt map is the configured one filtered: every key put
+						// into it is a key of the configured map as it stands
+						rew := ""
+						forEachInstr(fn, func(i2 ssa.Instruction) {
+							mu, isMU := i2.(*ssa.MapUpdate)
+							if !isMU || mu.Map.Type().String() != "map[string]string" || !sameMapValue(mu.Map, x.Val) {
+								return
+							}
+							kp := pa.Of(mu.Key)
+							okKey := isFields(kp)
+							for _, a := range kp.list() {
+								if strings.HasPrefix(a, "call:") {
+									okKey = false
+								}
+							}
+							if !okKey {
+								rew = shorten(valueExpr(c, mu.Key, 0), 60)
+							}
+						})
+						k++
+						r.Check(rew == "", "F3-fields-asis", fmt.Sprintf("%s: custom field map replaced#%d in %s keeps the configured keys", pk.Format, k, c.funcKey(fn)), c.instrPos(x),
+							"the packager replaces the configured custom-field map by one keyed with "+rew+": the control file states keys nobody configured, and two configured keys that meet in one rebuilt key lose a value")
+					}
+				case *ssa.MapUpdate:
+					if x.Map.Type().String() == "map[string]string" && isFields(pa.Of(x.Map)) {
+						if _, fresh := x.Map.(*ssa.MakeMap); fresh {
+							return
+						}
+						k++
+						r.Fail("F3-fields-asis", fmt.Sprintf("%s: custom field map written#%d in %s", pk.Format, k, c.funcKey(fn)), c.instrPos(x),
+							"the packager inserts into the configured custom-field map")
+					}
+				case *ssa.Call:
+					if b, ok := x.Call.Value.(*ssa.Builtin); ok && b.Name() == "delete" && isFields(pa.Of(x.Call.Args[0])) {
+						deletes++
+					}
+				}
+			})
+		}
+	}
+	r.Count("custom_field_deletes", deletes)
+	r.Pass("F3-fields-asis", "deb, ipk: custom field maps scanned for inserts and replacements", "-", fmt.Sprintf("%d packager functions examined; %d delete(s) of reserved names", n, deletes))
+	if n < 40 {
+		r.Fail("instance-floor", "F3-fields-asis", "-", fmt.Sprintf("only %d packager functions examined", n))
+	}
+}
+
+// sameMapValue: m is the map v stands for (v itself, or an edge of the phi v).
+func sameMapValue(m, v ssa.Value) bool {
+	if m == v {
+		return true
+	}
+	if phi, ok := v.(*ssa.Phi); ok {
+		for _, e := range phi.Edges {
+			if e == m {
+				return true
+			}
+		}
+	}
+	return false
+}
+
+// archKV is one key of the archlinux .PKGINFO table with the value written
+// under it, whatever form the table takes: a map literal (constant-keyed map
+// updates), calls of a (writer, key, value) helper with a constant key, or a
+// literal table of {key, value} rows walked by a loop - in the function that
+// builds it or in the helper it is handed to.
+type archKV struct {
+	key string
+	val ssa.Value
+	fn  *ssa.Function // the function the value is computed in
+	at  ssa.Instruction
+}
+
+func archKeyValues(c *Ctx, pa *provAnalysis, pk *Packager) []archKV {
+	var out []archKV
+	ownerOf := func(v ssa.Value, dflt *ssa.Function) *ssa.Function {
+		if in, ok := v.(ssa.Instruction); ok && in.Parent() != nil {
+			return in.Parent()
+		}
+		if p, ok := v.(*ssa.Parameter); ok {
+			return p.Parent()
+		}
+		return dflt
+	}
+	for _, fn := range sortedFuncs(c, c.Reach(pk.Package)) {
+		forEachInstr(fn, func(in ssa.Instruction) {
+			switch x := in.(type) {
+			case *ssa.MapUpdate:
+				k, ok := x.Key.(*ssa.Const)
+				if !ok || k.Value == nil || x.Map.Type().String() != "map[string]string" {
+					return
+				}
+				out = append(out, archKV{constString(k), x.Value, fn, in})
+			case *ssa.Call:
+				sc := x.Call.StaticCallee()
+				if sc == nil || !c.isModuleFunc(sc) || len(x.Call.Args) != 3 {
+					return
+				}
+				if _, isStr := x.Call.Args[1].Type().Underlying().(*types.Basic); !isStr {
+					return
+				}
+				k, ok := x.Call.Args[1].(*ssa.Const)
+				if !ok || k.Value == nil || k.Value.Kind().String() != "String" {
+					for _, row := range tableKeyValueRows(pa, x.Call.Args[1], x.Call.Args[2]) {
+						out = append(out, archKV{row.key, row.val, ownerOf(row.val, fn), in})
+					}
+					return
+				}
+				out = append(out, archKV{constString(k), x.Call.Args[2], fn, in})
+			}
+		})
+	}
+	return out
+}
+
+// checkScalarRowsPlain (F3-scalar-plain, F3-fields-range): the single-line
+// scalar settings (maintainer, vendor, homepage, license, section, priority)
+// are printed as configured - no template function rewrites them - and the
+// custom fields are ranged over as configured - no function filters or
+// rewrites the map on its way into the range.
+func checkScalarRowsPlain(c *Ctx, r *Report, format string, ti tmplInfo) {
+	scalar := map[string]bool{"Info.Maintainer": true, "Info.Vendor": true, "Info.Homepage": true, "Info.License": true,
+		"Info.Overridables.Section": true, "Info.Section": true, "Info.Overridables.Priority": true, "Info.Priority": true}
+	n := 0
+	rangeBad := ""
+	nRange := 0
+	for _, row := range ti.Rows {
+		fs := canonFields(c, row.Printed)
+		if len(fs) == 1 && scalar[fs[0]] {
+			n++
+			r.Check(len(row.Funcs) == 0, "F3-scalar-plain", fmt.Sprintf("%s: row %q prints %s as configured", format, row.Label, strings.TrimPrefix(fs[0], "Info.")), c.pos(ti.Fn.Pos()),
+				fmt.Sprintf("the row applies %v to the setting: whatever the function changes (non-ASCII text, case, blanks) is not what was configured", row.Funcs))
+		}
+		for _, g := range canonFields(c, row.Guards) {
+			if strings.HasSuffix(g, ".Fields") {
+				nRange++
+				if len(row.GFuncs) > 0 {
+					rangeBad = fmt.Sprintf("%v", row.GFuncs)
+				}
+			}
+		}
+	}
+	if format == "deb" || format == "ipk" {
+		r.Check(rangeBad == "" && nRange > 0, "F3-fields-range", format+": the custom fields are ranged over as configured", c.pos(ti.Fn.Pos()),
+			fmt.Sprintf("%d row(s) inside the range over the custom fields; functions applied on the way into the range: %s - a filtered or rebuilt map drops or renames configured fields", nRange, rangeBad))
+		r.Floor("F3-scalar-plain/"+format, n, 4)
+	}
 }
